@@ -275,3 +275,101 @@ func BadW1Unpack(start int, xs []int) (consumed int, next int, err error) {
 	}
 	return len(xs), n, nil
 }
+
+// ---- U2: the packet path does not reset its own first-packet flag ---------------------------------------------------------------
+
+type u2ring struct {
+	started bool
+	newest  uint16
+	slots   [8]int
+}
+
+func (r *u2ring) clear() {
+	for i := range r.slots {
+		r.slots[i] = 0
+	}
+	r.started = false
+}
+
+// GoodU2Add walks the gap; only Reset (called from outside) clears the flag.
+func (r *u2ring) GoodU2Add(seq uint16, v int) {
+	if !r.started {
+		r.started = true
+		r.newest = seq
+		r.slots[seq%8] = v
+		return
+	}
+	if d := seq - r.newest; d > 0 && d < 1<<15 {
+		for i := r.newest + 1; i != seq; i++ {
+			r.slots[i%8] = 0
+		}
+		r.newest = seq
+	}
+	r.slots[seq%8] = v
+}
+
+type u2ringBad struct {
+	started bool
+	newest  uint16
+	slots   [8]int
+}
+
+func (r *u2ringBad) clear() {
+	for i := range r.slots {
+		r.slots[i] = 0
+	}
+	r.started = false
+}
+
+// BadU2Add "optimises" a jump larger than the ring into clear(), which also forgets that the ring has started.
+func (r *u2ringBad) BadU2Add(seq uint16, v int) {
+	if !r.started {
+		r.started = true
+		r.newest = seq
+		r.slots[seq%8] = v
+		return
+	}
+	if d := seq - r.newest; d > 8 && d < 1<<15 {
+		r.clear()
+		r.newest = seq
+	}
+	r.slots[seq%8] = v
+}
+
+// F4 (belief form): `x, _ := newX(o.size)` is backed by the same call, checked, where o is built.
+
+type f4owner struct {
+	size int
+	obj  *f4obj
+}
+
+func newF4owner(size int) (*f4owner, error) {
+	o := &f4owner{size: size}
+	if _, err := newF4obj(o.size); err != nil {
+		return nil, err
+	}
+	return o, nil
+}
+
+func (o *f4owner) GoodF4BeliefBind() {
+	x, _ := newF4obj(o.size) // error is already checked in newF4owner
+	o.obj = x
+}
+
+type f4ownerBad struct {
+	size int
+	obj  *f4obj
+}
+
+func newF4ownerBad(size int) (*f4ownerBad, error) {
+	o := &f4ownerBad{size: size}
+	if o.size&(o.size-1) != 0 { // a hand-written test that also lets 0 through
+		return nil, errD8Closed
+	}
+	return o, nil
+}
+
+func (o *f4ownerBad) BadF4BeliefBind() {
+	x, _ := newF4obj(o.size)
+	o.obj = x
+}
